@@ -265,7 +265,12 @@ DFdiwrite(int32 file_id, int32 list, uint16 tag, uint16 ref)
     if (!list_rec)
         HRETURN_ERROR(DFE_ARGS, FAIL);
 
-    ret = Hputelement(file_id, tag, ref, list_rec->DIlist, (int32)list_rec->current * 4);
+    /* a group that already exists may have grown: reuse its tag/ref (as Vdetach
+       does for vgroups) so that the longer list can be stored */
+    if (HDcheck_tagref(file_id, tag, ref) == 1 && HDreuse_tagref(file_id, tag, ref) == FAIL)
+        ret = FAIL;
+    else
+        ret = Hputelement(file_id, tag, ref, list_rec->DIlist, (int32)list_rec->current * 4);
     free(list_rec->DIlist);
     free(list_rec);
     Group_list[list & 0xffff] = NULL; /* YUCK! BUG! */
